@@ -12,6 +12,7 @@ import (
 	"go/token"
 	"go/types"
 	"sort"
+	"strconv"
 	"strings"
 
 	"golang.org/x/tools/go/ssa"
@@ -27,6 +28,7 @@ type Val struct {
 	Fn    *ssa.Function
 	Dyn   types.Type // statically known dynamic type of an interface value
 	Cancel bool      // a context.CancelFunc created by the verified code
+	FreshFrom string // deep-fresh message: everything reachable from it was allocated at or after this allocation mark
 }
 
 type Closure struct {
@@ -139,6 +141,9 @@ type FnCtx struct {
 	nonNil     map[string]bool
 	ranges     map[string]*rangeState
 	lastCall   map[string]Val
+	pureObs    []string
+	sliceLen   map[string]string // slice terms whose length is a literal (argument lists built at call sites)
+	grafts     []string          // objects into which a message/list pointer was stored (deep-freshness of newer clones is void for them)
 }
 
 func (c *FnCtx) unsupported(format string, a ...any) {
@@ -223,6 +228,11 @@ func (c *FnCtx) faddr(structT types.Type, field int, ref string) string {
 // ---------- obligations ----------
 
 func (c *FnCtx) obligation(st *State, kind, clause, goal string, pos token.Pos) *Obligation {
+	if c.sc.pure {
+		// inside a closure being turned into a term: safety conditions are collected and discharged once, quantified
+		c.pureObs = append(c.pureObs, Implies(st.guard, goal))
+		return &Obligation{}
+	}
 	base := c.fnName() + "#" + kind
 	if clause != "" {
 		base += "." + clause
@@ -343,23 +353,10 @@ func (c *FnCtx) execBody(fr *Frame, st *State) (*State, []Val) {
 	fr.entry = st.clone()
 	c.findLoops(fr)
 	order := rpo(fn)
-	in := map[*ssa.BasicBlock][]edgeIn{}
-	in[fn.Blocks[0]] = []edgeIn{{-1, st}}
 	var rets []retInfo
-	for _, b := range order {
-		ins := in[b]
-		if len(ins) == 0 {
-			continue
-		}
-		if b == fn.Recover {
-			continue
-		}
-		bst := c.enterBlock(fr, b, ins)
-		if bst == nil {
-			continue
-		}
-		c.execBlock(fr, b, bst, in, &rets)
-	}
+	rg := &region{in: map[*ssa.BasicBlock][]edgeIn{}, rets: &rets, skip: map[*ssa.BasicBlock]bool{}}
+	rg.in[fn.Blocks[0]] = []edgeIn{{-1, st}}
+	c.runBlocks(fr, order, rg)
 	if len(rets) == 0 {
 		// function never returns normally (panics or loops forever)
 		dead := st.clone()
@@ -372,6 +369,106 @@ func (c *FnCtx) execBody(fr *Frame, st *State) (*State, []Val) {
 		return dead, zs
 	}
 	return c.mergeReturns(fr, rets)
+}
+
+// region: the set of blocks currently being executed.  The top region is the whole function; unrolling a loop opens
+// a sub-region per iteration whose exit edges flow to the enclosing region.
+type region struct {
+	in     map[*ssa.BasicBlock][]edgeIn
+	rets   *[]retInfo
+	unroll *loopInfo
+	next   []edgeIn
+	outer  *region
+	skip   map[*ssa.BasicBlock]bool
+}
+
+func (c *FnCtx) runBlocks(fr *Frame, order []*ssa.BasicBlock, rg *region) {
+	for _, b := range order {
+		if rg.skip[b] {
+			continue
+		}
+		ins := rg.in[b]
+		if len(ins) == 0 {
+			continue
+		}
+		if b == fr.fn.Recover {
+			continue
+		}
+		if li := fr.loops[b]; li != nil && !(rg.unroll == li) {
+			if n, bounded, ok := c.unrollBound(fr, li, ins); ok {
+				c.execUnrolled(fr, li, ins, rg, order, n, bounded)
+				for lb := range li.body {
+					rg.skip[lb] = true
+				}
+				continue
+			}
+		}
+		bst := c.enterBlock(fr, b, ins, rg.unroll != nil && rg.unroll.header == b)
+		if bst == nil {
+			continue
+		}
+		c.execBlock(fr, b, bst, rg)
+	}
+}
+
+// unrollBound decides whether a loop is executed by unrolling: either the contract asks for a bounded stand-in
+// (`unroll N`), or it is a range loop over a slice whose length is a literal (argument lists built at the call site).
+func (c *FnCtx) unrollBound(fr *Frame, li *loopInfo, ins []edgeIn) (n int, bounded bool, ok bool) {
+	if li.spec != nil && li.spec.Unroll > 0 {
+		return li.spec.Unroll, true, true
+	}
+	if li.spec != nil {
+		return 0, false, false
+	}
+	isRange := false
+	for _, p := range li.phis {
+		if p.Comment == "rangeindex" {
+			isRange = true
+		}
+	}
+	if !isRange {
+		return 0, false, false
+	}
+	for _, ins := range li.header.Instrs {
+		if b, ok := ins.(*ssa.BinOp); ok && b.Op == token.LSS {
+			if v, defd := fr.vals[b.Y]; defd {
+				if k, err := strconv.Atoi(v.E); err == nil && k >= 0 && k <= 12 {
+					return k, false, true
+				}
+			} else if cst, isC := b.Y.(*ssa.Const); isC {
+				if k, err := strconv.Atoi(c.val(fr, cst).E); err == nil && k >= 0 && k <= 12 {
+					return k, false, true
+				}
+			}
+		}
+	}
+	return 0, false, false
+}
+
+func (c *FnCtx) execUnrolled(fr *Frame, li *loopInfo, ins []edgeIn, rg *region, order []*ssa.BasicBlock, n int, bounded bool) {
+	var body []*ssa.BasicBlock
+	for _, b := range order {
+		if li.body[b] {
+			body = append(body, b)
+		}
+	}
+	cur := ins
+	for iter := 0; len(cur) > 0; iter++ {
+		if iter > n {
+			for _, e := range cur {
+				o := c.obligation(e.st, "unwind", fmt.Sprintf("loop%d", li.ordinal), "false", li.header.Instrs[0].Pos())
+				o.Desc = fmt.Sprintf("unwinding assertion: the loop needs no more than %d iterations", n)
+				if bounded && o.Bounded == "" {
+					o.Bounded = fmt.Sprintf("unroll=%d", n)
+				}
+			}
+			break
+		}
+		sub := &region{in: map[*ssa.BasicBlock][]edgeIn{}, rets: rg.rets, unroll: li, outer: rg, skip: map[*ssa.BasicBlock]bool{}}
+		sub.in[li.header] = cur
+		c.runBlocks(fr, body, sub)
+		cur = sub.next
+	}
 }
 
 func rpo(fn *ssa.Function) []*ssa.BasicBlock {
@@ -451,8 +548,11 @@ func (c *FnCtx) specFor(fr *Frame) *FuncSpec {
 	return c.eng.specOf(fr.fn)
 }
 
-func (c *FnCtx) enterBlock(fr *Frame, b *ssa.BasicBlock, ins []edgeIn) *State {
+func (c *FnCtx) enterBlock(fr *Frame, b *ssa.BasicBlock, ins []edgeIn, unrolling bool) *State {
 	li := fr.loops[b]
+	if unrolling {
+		li = nil
+	}
 	var st *State
 	if len(ins) == 1 {
 		st = ins[0].st
@@ -628,18 +728,19 @@ func (c *FnCtx) materialize(v Val, st *State) Val {
 	return v
 }
 
-func (c *FnCtx) execBlock(fr *Frame, b *ssa.BasicBlock, st *State, in map[*ssa.BasicBlock][]edgeIn, rets *[]retInfo) {
+func (c *FnCtx) execBlock(fr *Frame, b *ssa.BasicBlock, st *State, rg *region) {
+	rets := rg.rets
 	for _, instr := range b.Instrs {
 		switch i := instr.(type) {
 		case *ssa.Phi, *ssa.DebugRef:
 			continue
 		case *ssa.If:
 			cond := c.val(fr, i.Cond).E
-			c.edge(fr, b, 0, st, cond, in)
-			c.edge(fr, b, 1, st, Not(cond), in)
+			c.edge(fr, b, 0, st, cond, rg)
+			c.edge(fr, b, 1, st, Not(cond), rg)
 			return
 		case *ssa.Jump:
-			c.edge(fr, b, 0, st, "true", in)
+			c.edge(fr, b, 0, st, "true", rg)
 			return
 		case *ssa.Return:
 			var vs []Val
@@ -665,7 +766,7 @@ func (c *FnCtx) doPanic(fr *Frame, st *State, i *ssa.Panic) {
 	o.Desc = "explicit panic reachable"
 }
 
-func (c *FnCtx) edge(fr *Frame, from *ssa.BasicBlock, succIdx int, st *State, cond string, in map[*ssa.BasicBlock][]edgeIn) {
+func (c *FnCtx) edge(fr *Frame, from *ssa.BasicBlock, succIdx int, st *State, cond string, rg *region) {
 	to := from.Succs[succIdx]
 	predIdx := -1
 	cnt := 0
@@ -693,11 +794,23 @@ func (c *FnCtx) edge(fr *Frame, from *ssa.BasicBlock, succIdx int, st *State, co
 	if ns.guard == "false" {
 		return
 	}
-	if isBackEdge(from, to) {
-		c.loopBack(fr, fr.loops[to], ns, predIdx)
+	for r := rg; r != nil; r = r.outer {
+		if r.unroll != nil {
+			if to == r.unroll.header && r.unroll.body[from] {
+				r.next = append(r.next, edgeIn{predIdx, ns})
+				return
+			}
+			if !r.unroll.body[to] {
+				continue // leaves the loop being unrolled: the enclosing region receives the edge
+			}
+		}
+		if isBackEdge(from, to) {
+			c.loopBack(fr, fr.loops[to], ns, predIdx)
+			return
+		}
+		r.in[to] = append(r.in[to], edgeIn{predIdx, ns})
 		return
 	}
-	in[to] = append(in[to], edgeIn{predIdx, ns})
 }
 
 func (c *FnCtx) mergeReturns(fr *Frame, rets []retInfo) (*State, []Val) {
@@ -745,6 +858,15 @@ func (c *FnCtx) loopEnv(fr *Frame, li *loopInfo, override map[ssa.Value]Val) *En
 func (c *FnCtx) loopHead(fr *Frame, li *loopInfo, st *State) {
 	// bounded stand-in: unroll instead of cutting
 	li.pre = st.clone()
+	if li.spec != nil {
+		for k, as := range li.spec.Asserts {
+			env := c.loopEnv(fr, li, nil)
+			env.st, env.old = st, fr.entry
+			g := c.evalBool(env, as.E)
+			o := c.obligation(st, "assert", fmt.Sprintf("loop%d.entry.%s", li.ordinal, clauseName(as, k)), g, li.header.Instrs[0].Pos())
+			o.Desc = "holds when the loop is entered: " + as.Text
+		}
+	}
 	// 1. invariants hold on entry
 	if li.spec != nil {
 		for k, inv := range li.spec.Invariants {
@@ -1010,8 +1132,8 @@ func (c *FnCtx) addrMods(fr *Frame, addr ssa.Value, m *modSet) {
 		case *types.Slice:
 			m.comps[c.elemHeap(xt.Elem())] = true
 		case *types.Pointer:
-			if root, ok := rootAlloc(a.X); ok && !root.Heap && fr != nil {
-				m.locals[localKey(fr, root)] = true
+			if at, ok := xt.Elem().Underlying().(*types.Array); ok {
+				m.comps[c.elemHeap(at.Elem())] = true
 			} else {
 				m.all = true
 			}
@@ -1200,7 +1322,8 @@ func (c *FnCtx) val(fr *Frame, v ssa.Value) Val {
 
 func (c *FnCtx) funcRef(fn *ssa.Function) string {
 	n := q("fn$" + c.eng.funcName(fn))
-	c.sc.Decl("fn:"+n, fmt.Sprintf("(declare-const %s Int)\n(assert (> %s 0))", n, n))
+	c.sc.Decl("clofn", "(declare-fun |clofn| (Int) Int)")
+	c.sc.Decl("fn:"+n, fmt.Sprintf("(declare-const %s Int)\n(assert (> %s 0))\n(assert (< %s |alloc0|))\n(assert (= (|clofn| %s) %d))", n, n, n, n, c.eng.fnID(fn)))
 	return n
 }
 
@@ -1317,6 +1440,11 @@ func (c *FnCtx) load(st *State, l *Loc, resT types.Type) Val {
 		t, e2 := c.projectPath(ft, e, l.Path[1:])
 		e2 = c.sc.Define("ld", c.ty.SortOf(t), e2)
 		c.assumeLoaded(st, t, e2)
+		if _, isIface := t.Underlying().(*types.Interface); isIface && isMessageStruct(l.RootT) {
+			// well-formed protobuf messages never hold a typed-nil oneof wrapper
+			c.assume(st, "(=> (not (= (i-tag "+e2+") 0)) (not (= (i-val "+e2+") 0)))")
+			c.assumed["protobuf messages are well formed: a oneof field never holds a typed-nil wrapper"] = true
+		}
 		return Val{T: t, E: e2}
 	case locCell:
 		e := c.sc.Define("ld", c.ty.SortOf(l.RootT), "(select "+c.heapGet(st, l.Comp)+" "+l.Ref+")")
